@@ -332,13 +332,86 @@ pub fn majority_scenario(r: &mut Report, seed: u64, fates: &[u8], kind: u8) {
     let _ = crate::take_panics();
 }
 
+/// No put in flight, no conflict: a first put_mutable FAILS to start (its lookup found no node that hands out
+/// write tokens - NoClosestNodes) in the very tick in which that lookup's answers also report a new public
+/// address for the node. Afterwards nothing is in flight for the key, so a second put_mutable (another item
+/// without cas / a lower seq / a cas that matches nothing) must not be refused by the LOCAL conflict rules.
+pub fn stale_put_scenario(r: &mut Report, seed: u64) {
+    r.eval();
+    let mut rng = Rng::new(seed);
+    let w = World::with_cfg(seed, NetCfg { lat_min: MS, lat_max: 40 * MS, random_ties: true }, TraceLevel::Off);
+    let n = 1 + rng.usize(4);
+    let ends: Vec<([u8; 20], SocketAddrV4)> = (0..n).map(|i| (rng.array(), SocketAddrV4::new(Ipv4Addr::new(10, 8, 0, 1 + i as u8), 6881))).collect();
+    let socks: Vec<SockId> = ends.iter().map(|e| w.raw(e.1)).collect();
+    let vote_new = std::rc::Rc::new(std::cell::Cell::new(false));
+    let address_changes = rng.bool();
+    let second = rng.usize(3);
+    let second_name = ["other item, no cas", "lower seq", "cas that matches nothing"][second];
+    let case = json!({"class":"stale-put","seed":seed.to_string(),"endpoints":n,"address_vote_changes_with_the_failing_lookup":address_changes,"second_put":second_name});
+    {
+        let (ends2, socks2, vn) = (ends.clone(), socks.clone(), vote_new.clone());
+        w.set_responder(Some(Box::new(move |w, sock, d| {
+            let Some(i) = socks2.iter().position(|s| *s == sock) else { return false };
+            let Some(q) = Krpc::parse(&d.bytes) else { return true };
+            if q.y != b'q' {
+                return true;
+            }
+            // answers list the other endpoints and never carry a write token
+            let rd = vec![("id", B::bytes(&ends2[i].0)), ("nodes", B::Bytes(nodes_bytes(&ends2)))];
+            let voted = if vn.get() { SocketAddrV4::new(Ipv4Addr::new(36, 6, 6, 6), 6881) } else { d.from };
+            w.raw_send(sock, &response(&q.t, B::dict(rd), Some(&voted), Some(&VERSION_RS6)).encode(), d.from);
+            true
+        })));
+    }
+    let boots: Vec<SocketAddrV4> = ends.iter().map(|e| e.1).collect();
+    let x = match w.spawn(NodeSpec::client(Ipv4Addr::new(35, 5, 5, 5), &boots)) {
+        Ok(x) => x,
+        Err(_) => return,
+    };
+    w.block_on(x.adht.bootstrapped(), 60 * SEC);
+    w.run_for(2 * SEC);
+    vote_new.set(address_changes);
+    let signer = SigningKey::from_bytes(&rng.array::<32>());
+    let i1 = MutableItem::new(&signer, b"first", 10, None);
+    let r1 = w.block_on(x.adht.put_mutable(i1, None), 120 * SEC);
+    w.run_for(2 * SEC);
+    let i2 = match second {
+        0 => (MutableItem::new(&signer, b"second", 11, None), None),
+        1 => (MutableItem::new(&signer, b"second", 9, None), None),
+        _ => (MutableItem::new(&signer, b"second", 11, None), Some(3)),
+    };
+    let r2 = w.block_on(x.adht.put_mutable(i2.0, i2.1), 120 * SEC);
+    let (s1, s2) = (short(&r1), short(&r2));
+    r.count("stale_put_scenarios");
+    if s1.contains("NoClosestNodes") {
+        r.count("stale_put/first_put_failed_to_start");
+        if address_changes {
+            r.count("stale_put/first_put_failed_to_start_while_the_address_vote_changed");
+        }
+        r.nontrivial(mix(seed, second as u64));
+        if matches!(s2.as_str(), "ConflictRisk" | "NotMostRecent" | "CasFailed") {
+            r.violation(&format!("no-put-in-flight/local-conflict-error/{s2}"), "put_mutable was refused by the local conflict rules although no put for that key was in flight (the earlier one had failed with NoClosestNodes)", case.clone(), json!({"first": s1, "second": s2}));
+        }
+    }
+    if r1.is_none() || r2.is_none() {
+        r.violation("stale-put/did-not-complete", "a put_mutable call did not complete", case.clone(), json!({"first": s1, "second": s2}));
+    }
+    drop(x);
+    w.shutdown();
+    for (thread, loc, msg) in crate::take_panics() {
+        r.violation(&format!("panic/{loc}"), &format!("thread {thread} panicked: {msg}"), case.clone(), json!({}));
+    }
+}
+
 pub fn run(a: &Args) -> Report {
     let mut r = Report::new("C17");
     if let Some(path) = &a.replay {
         let v: Value = serde_json::from_str(&std::fs::read_to_string(path).unwrap_or_default()).unwrap_or_default();
         let c = &v["case"];
         let seed = c["seed"].as_str().and_then(|s| s.parse().ok()).unwrap_or(1);
-        if c["class"] == "majority" {
+        if c["class"] == "stale-put" {
+            super::guarded(&mut r, c.clone(), |r| stale_put_scenario(r, seed));
+        } else if c["class"] == "majority" {
             let fates: Vec<u8> = c["fates"].as_array().map(|l| l.iter().map(|x| x.as_u64().unwrap_or(0) as u8).collect()).unwrap_or_default();
             let kind = c["kind"].as_u64().unwrap_or(0) as u8;
             super::guarded(&mut r, c.clone(), |r| majority_scenario(r, seed, &fates, kind));
@@ -404,6 +477,11 @@ pub fn run(a: &Args) -> Report {
             let seed2 = mix(seed, kind as u64);
             super::guarded(&mut r, json!({"class":"majority","seed":seed2.to_string(),"fates":fates,"kind":kind}), |r| majority_scenario(r, seed2, &fates, kind));
         }
+    }
+    let mut rng = Rng::new(mix(a.seed, 0x57a1e + a.shard));
+    for _ in 0..(if a.quick() { 320 } else { 6400 }) / a.nshards.max(1) {
+        let seed = rng.u64();
+        super::guarded(&mut r, json!({"class":"stale-put","seed":seed.to_string()}), |r| stale_put_scenario(r, seed));
     }
     r
 }
